@@ -167,6 +167,22 @@ impl PartialEq<str> for Value {
         ensures r == (jv(*self) == J::Str(other@))
     { unimplemented!() }
 }
+impl PartialEq<String> for Value {
+    #[verifier::external_body]
+    fn eq(&self, other: &String) -> (r: bool)
+        ensures r == (jv(*self) == J::Str(other@))
+    { unimplemented!() }
+}
+pub uninterp spec fn num_u64(n: Number) -> Option<u64>;     // serde_json::Number accessors: uninterpreted
+pub uninterp spec fn num_i64(n: Number) -> Option<i64>;
+impl Value {
+    #[verifier::external_body]
+    pub fn as_u64(&self) -> (r: Option<u64>) ensures match self { Value::Number(n) => r == num_u64(*n), _ => r is None } { unimplemented!() }
+    #[verifier::external_body]
+    pub fn as_i64(&self) -> (r: Option<i64>) ensures match self { Value::Number(n) => r == num_i64(*n), _ => r is None } { unimplemented!() }
+    #[verifier::external_body]
+    pub fn as_f64(&self) -> (r: Option<f64>) ensures !(self is Number) ==> r is None { unimplemented!() }
+}
 impl vstd::std_specs::fmt::DisplaySpecImpl for Value {
     open spec fn fmt_req(&self, f: &core::fmt::Formatter) -> bool { true }
 }
@@ -314,6 +330,10 @@ pub broadcast axiom fn axiom_value_str_ne<'a>(a: crate::shim::Value, b: &'a str)
     ensures #[trigger] <crate::shim::Value as vstd::std_specs::cmp::PartialEqSpec<&'a str>>::eq_spec(&a, &b) == (crate::shim::jv(a) == crate::shim::J::Str(b@));
 pub broadcast axiom fn axiom_value_str_obeys<'a>()
     ensures #[trigger] <crate::shim::Value as vstd::std_specs::cmp::PartialEqSpec<&'a str>>::obeys_eq_spec();
+pub broadcast axiom fn axiom_value_string_ne(a: crate::shim::Value, b: String)
+    ensures #[trigger] <crate::shim::Value as vstd::std_specs::cmp::PartialEqSpec<String>>::eq_spec(&a, &b) == (crate::shim::jv(a) == crate::shim::J::Str(b@));
+pub broadcast axiom fn axiom_value_string_obeys()
+    ensures #[trigger] <crate::shim::Value as vstd::std_specs::cmp::PartialEqSpec<String>>::obeys_eq_spec();
 pub broadcast axiom fn axiom_string_str_obeys()
     ensures #[trigger] <String as vstd::std_specs::cmp::PartialEqSpec<str>>::obeys_eq_spec();
 }
